@@ -14,6 +14,7 @@
 import AgeModel.Extracted.Consts
 import AgeModel.SpecConsts
 import AgeModel.Concrete
+import AgeModel.File
 namespace AgeModel
 namespace Tie.C05
 open SpecConsts
@@ -25,7 +26,7 @@ theorem spec_bytes_consistent :
     codes hkdfInfoHeader = hkdfInfoHeaderBytes ∧ codes hkdfInfoPayload = hkdfInfoPayloadBytes ∧
     codes stanzaTypeX25519 = stanzaTypeX25519Bytes ∧ codes stanzaTypeScrypt = stanzaTypeScryptBytes ∧
     codes stanzaTypeSshRsa = stanzaTypeSshRsaBytes ∧ codes stanzaTypeSshEd25519 = stanzaTypeSshEd25519Bytes ∧
-    codes x25519Label = x25519LabelBytes ∧ codes scryptLabel = scryptLabelBytes ∧
+    codes SpecConsts.x25519Label = x25519LabelBytes ∧ codes SpecConsts.scryptLabel = scryptLabelBytes ∧
     codes sshRsaLabel = sshRsaLabelBytes ∧ codes sshEd25519Label = sshEd25519LabelBytes ∧
     codes workFactorSyntax = workFactorSyntaxBytes ∧
     codes armorHeader = armorHeaderBytes ∧ codes armorFooter = armorFooterBytes ∧
@@ -121,6 +122,30 @@ theorem armorHeader_tie : Extracted.armorHeaderBytes = SpecConsts.armorHeaderByt
 theorem armorFooter_tie : Extracted.armorFooterBytes = SpecConsts.armorFooterBytes := by decide
 theorem bech32Charset_tie : Extracted.bech32CharsetBytes = SpecConsts.bech32CharsetBytes := by decide
 theorem bech32Generator_tie : Extracted.bech32Generator = SpecConsts.bech32Generator := by decide
+
+/-! ### the byte-list constants the model's definitions use are the specification's -/
+
+/-- every format constant the Lean model (Format / Recipients / File) is written
+    with equals the specification constant that the regenerated source constant
+    was just tied to — so a theorem about the model is a theorem about these values -/
+theorem model_constants :
+    Format.intro.map UInt8.toNat = SpecConsts.introBytes ∧
+    Format.stanzaPrefix.map UInt8.toNat = SpecConsts.stanzaPrefixBytes ∧
+    Format.footerPrefix.map UInt8.toNat = SpecConsts.footerPrefixBytes ∧
+    Format.columnsPerLine = SpecConsts.columnsPerLine ∧ Format.bytesPerLine = SpecConsts.bytesPerLine ∧
+    AgeModel.x25519Label.map UInt8.toNat = SpecConsts.x25519LabelBytes ∧
+    AgeModel.scryptLabel.map UInt8.toNat = SpecConsts.scryptLabelBytes ∧
+    AgeModel.oaepLabel.map UInt8.toNat = SpecConsts.sshRsaLabelBytes ∧
+    AgeModel.ed25519Label.map UInt8.toNat = SpecConsts.sshEd25519LabelBytes ∧
+    AgeModel.tX25519.map UInt8.toNat = SpecConsts.stanzaTypeX25519Bytes ∧
+    AgeModel.tScrypt.map UInt8.toNat = SpecConsts.stanzaTypeScryptBytes ∧
+    AgeModel.tSshRsa.map UInt8.toNat = SpecConsts.stanzaTypeSshRsaBytes ∧
+    AgeModel.tSshEd.map UInt8.toNat = SpecConsts.stanzaTypeSshEd25519Bytes ∧
+    AgeModel.headerInfo.map UInt8.toNat = SpecConsts.hkdfInfoHeaderBytes ∧
+    AgeModel.payloadInfo.map UInt8.toNat = SpecConsts.hkdfInfoPayloadBytes ∧
+    AgeModel.fileKeySize = SpecConsts.fileKeySize ∧ AgeModel.streamNonceSize = SpecConsts.streamNonceSize ∧
+    AgeModel.scryptSaltSize = SpecConsts.scryptSaltSize := by
+  decide
 
 end Tie.C05
 end AgeModel
